@@ -68,6 +68,7 @@ def generate(rng: random.Random, tier: str):
 
     yield from c05_entries.generate(rng, tier)
 
+
 def rich_old(rng):
     """a previous graph with at least two nodes, a masked property and non-zero ids (so that a half-deleted copy is a DIFFERENT graph)"""
     while True:
